@@ -147,6 +147,9 @@ static std::string writeModel(const J &sys, const Variant &vr, const J &external
             }
             std::string lhs = "<ci>" + V(c["name"].str(), comp) + "</ci>";
             if (c["role"].str() == "state") {
+                if (faultKind == "diffOfSum" && faultName == c["name"].str()) { // the derivative of an expression: d(x + 0)/dt
+                    lhs = "<apply><plus/>" + lhs + "<cn cellml:units=\"" + unitsOf(comp) + "\">0</cn></apply>";
+                }
                 lhs = "<apply><diff/><bvar><ci>" + P("t") + "</ci></bvar>" + lhs + "</apply>";
             }
             eqs.push_back("<apply><eq/>" + lhs + rhs + "</apply>");
